@@ -22,7 +22,7 @@ KEYMAP = {
     'datagram-not-sent-or-duplicated': ['C16'], 'dgram-': ['C16'],
     'path-challenge-unpadded': ['C13'], 'path-response-unpadded': ['C13'], 'loss-probe-oversized': ['C13'],
     'migration-': ['C15'], 'path-': ['C15'],
-    'determinism-': ['C20'], 'shift-': ['C20'], 'spurious-': ['C20'], 'timeout-settle': ['C20'], 'steps-without-time-advance': ['C20', 'C03'], 'execution-exceeded-trace-budget': ['*'],
+    'determinism-': ['C20'], 'shift-': ['C20'], 'spurious-': ['C20'], 'timeout-settle': ['C20'], 'steps-without-time-advance': ['C20', 'C03'], 'execution-exceeded-trace-budget': ['*'], 'transmit-loop-unbounded': ['*'],
     'zero-rtt-rejected-credit-update-lost': ['C17', 'C02'], 'zero-rtt-rejected-datagram-exceeds-new-limit': ['C17', 'C02'],
     'zero-rtt-rejected-limits-not-fresh': ['C17', 'C05'], 'zero-rtt-accepted-limits-not-raised': ['C17', 'C05'],
     'zero-rtt-': ['C17'],
@@ -63,10 +63,10 @@ def run(pid, scen, seed, tier, stats, failing, broken, sh, CACHE, TARGET, infra,
     prefix = os.path.join(rundir, f'{pid}-{tier}-sim-{name}')
     import subprocess
     cmdline = [os.path.join(TARGET, 'debug', 'sim'), name, str(seed), str(n), prefix]
-    # address-space limit (16 GiB; ordinary campaigns stay below 2): code under test that makes executions run away must end in
+    # address-space limit (8 GiB; ordinary campaigns stay below 2): code under test that makes executions run away must end in
     # an allocation failure (reported below as simulator-did-not-finish), not take the machine down
     if os.path.exists('/usr/bin/prlimit'):
-        cmdline = ['/usr/bin/prlimit', '--as=17179869184'] + cmdline
+        cmdline = ['/usr/bin/prlimit', '--as=8589934592'] + cmdline
     try:
         rc, out = sh(cmdline, timeout=7200)
     except subprocess.TimeoutExpired:
